@@ -506,7 +506,7 @@ def term_mentions_global(t, g):
     return any(term_mentions_global(x, g) for x in t[1:] if isinstance(x, tuple))
 
 
-def verbosity_regions_pure(fn, gname='of_verbosity'):
+def verbosity_regions_pure(fn, gname='of_verbosity', pure_call=None):
     """Every branch on `gname` controls only regions made of print calls (no store, no other call): returns
     (ok, offending instruction or None, number of such branches)."""
     tt = Terms(fn)
@@ -533,6 +533,8 @@ def verbosity_regions_pure(fn, gname='of_verbosity'):
                             'sub', 'add', 'and', 'sdiv', 'udiv', 'mul', 'select', 'fpext', 'sitofp', 'uitofp', 'fdiv', 'fmul'):
                     continue
                 if i.op == 'call' and i.callee in PRINT_CALLS:
+                    continue
+                if i.op == 'call' and pure_call is not None and pure_call(i):
                     continue
                 return False, i, n
     return True, None, n
